@@ -342,7 +342,7 @@ fn run_burst_case(tape: &[u8], want_sample: bool) -> CaseResult {
     let hash = hash_str(&format!("burst {} {} {}", bt, bn, jitter));
     let mut scen = Scen::new();
     let ids = start_burst(&mut scen, bt, bn);
-    let done = scen.wait_until(Duration::from_secs(10), |l| {
+    let done = scen.wait_progress(Duration::from_secs(10), |l| {
         let r = l.recs.lock().unwrap();
         r.iter().filter(|m| m.tag == "ids").count() >= bt * bn && r.iter().filter(|m| m.tag == "kid").count() >= 2 * bt * bn
     });
@@ -402,7 +402,7 @@ impl Check for C15 {
             .into()
     }
     fn assumptions(&self) -> Vec<String> {
-        vec!["an event or reply not processed within 5 s counts as lost".into(), "generated send/invoke ids are required to be unique within their session (W3C 6.2.4 / 6.4.1); session ids globally".into()]
+        vec!["an event or reply counts as lost when no session has processed anything for 5 s".into(), "generated send/invoke ids are required to be unique within their session (W3C 6.2.4 / 6.4.1); session ids globally".into()]
     }
     fn phases(&self, tier: Tier) -> Vec<Phase> {
         match tier {
@@ -459,7 +459,7 @@ impl Check for C15 {
         }
         // children: wait for their ready marks
         let n_children = sc.nodes.iter().filter(|n| n.child.is_some()).count();
-        let ready = scen.wait_until(Duration::from_secs(10), |l| {
+        let ready = scen.wait_progress(Duration::from_secs(10), |l| {
             let r = l.recs.lock().unwrap();
             r.iter().filter(|m| m.tag == "ready").count() >= n_children && r.iter().filter(|m| m.tag == "kidready").count() >= n_children
         });
@@ -538,7 +538,7 @@ impl Check for C15 {
             }
         };
         let name_of = |ai: usize, ci: usize| format!("{}.{}", shape_prefix(&addrs[ai].cmds[ci].payload), tag(&addrs[ai].name, ci));
-        let done = scen.wait_until(Duration::from_secs(5), |l| {
+        let done = scen.wait_progress(Duration::from_secs(5), |l| {
             let r = l.recs.lock().unwrap();
             issued.iter().all(|(ai, ci, _)| {
                 let n = name_of(*ai, *ci);
@@ -550,7 +550,7 @@ impl Check for C15 {
         // ---- part 2: concurrent session creation
         let (bt, bn) = sc.burst;
         let burst_ids = start_burst(&mut scen, bt, bn);
-        let burst_done = scen.wait_until(Duration::from_secs(5), |l| l.recs.lock().unwrap().iter().filter(|m| m.tag == "ids").count() >= bt * bn);
+        let burst_done = scen.wait_progress(Duration::from_secs(5), |l| l.recs.lock().unwrap().iter().filter(|m| m.tag == "ids").count() >= bt * bn);
         // burst children are cancelled by their parents
         let (ended, panics) = finish(&mut scen);
         let log = scen.log.snapshot();
